@@ -10,7 +10,7 @@ and a final `S` summary line plus `T` tag-histogram lines.
 open Grol
 
 def suites : List (String × (String → String → CaseResult)) :=
-  [ ("trie", TrieSuite.runCase), ("cmp", CmpSuite.runCase) ]
+  [ ("trie", TrieSuite.runCase), ("cmp", CmpSuite.runCase), ("mapops", MapSuite.runCase) ]
 
 structure DAcc where
   cases : Nat := 0
